@@ -79,18 +79,24 @@ impl Visitor for AlmostSwappedVisitor {
                         let expr_text = purge_trivia(expr).to_string().trim().to_owned();
                         let var_text = purge_trivia(var).to_string().trim().to_owned();
 
-                        if let Some(last_swap) = last_swap.take() {
-                            if last_swap.names.0 == expr_text && last_swap.names.1 == var_text {
+                        match last_swap.take() {
+                            Some(last_swap)
+                                if last_swap.names.0 == expr_text
+                                    && last_swap.names.1 == var_text =>
+                            {
                                 self.almost_swaps.push(AlmostSwap {
                                     names: last_swap.names.to_owned(),
                                     range: (last_swap.range.0, expr_end),
                                 });
                             }
-                        } else {
-                            last_swap = Some(AlmostSwap {
-                                names: (var_text, expr_text),
-                                range: range(stmt),
-                            });
+
+                            // Not the second half of a swap, but it can be the first half of the next one
+                            _ => {
+                                last_swap = Some(AlmostSwap {
+                                    names: (var_text, expr_text),
+                                    range: range(stmt),
+                                });
+                            }
                         }
 
                         continue;
